@@ -297,6 +297,15 @@ def uses_dv(pf, g):
     return bool(g.dv.get(pf[0])) or any(uses_dv(c, g) for c in pf[1])
 
 
+def retoken(text, ren):
+    """token-wise renaming of a database text"""
+    return '\n'.join(' '.join(ren.get(tok, tok) for tok in line.split(' ')) for line in text.split('\n'))
+
+
+# declaration order th1, ps0, ph2, ph3: not the alphabetical order of the names
+RENAME_VARS = {'ph0': 'th1', 'ph0-is-pattern': 'th1-is-pattern', 'ph1': 'ps0', 'ph1-is-pattern': 'ps0-is-pattern'}
+
+
 def uses_label(pf, labels):
     return pf[0] in labels or any(uses_label(c, labels) for c in pf[1])
 
